@@ -122,9 +122,56 @@ class LogActionContext(ActionContext):
                         return True     # e.g. a lambda or a dict display: the ':' belongs to the expression
                     except SyntaxError:
                         pass            # a real format spec ({n:>5}): string.Formatter applies it to the text
-            return False
         except ValueError:
             return True                 # e.g. '{a != b}': string.Formatter cannot even parse it
+
+        class DryRun(string.Formatter):
+            """
+            Format the template without evaluating anything.
+
+            What string.Formatter refuses only while it formats (an unknown conversion '{a!x}', '{} of {0}', nested
+            specs) is found before any field is evaluated.
+            """
+
+            def get_field(self, field_name, args, kwargs):
+                return '', field_name
+
+            def format_field(self, value, format_spec):
+                try:
+                    return super().format_field(value, format_spec)
+                except ValueError:
+                    return value
+
+        try:
+            DryRun().vformat(template, (), {})
+            return False
+        except (ValueError, LookupError):
+            return True
+
+    @staticmethod
+    def __field_end(template: str, start: int) -> int:
+        """Find the brace that closes the field opened at start: an expression can hold braces (and quotes) itself."""
+        depth = 0
+        quote = None
+        i = start
+        while i < len(template):
+            char = template[i]
+            if quote is not None:
+                if char == '\\':
+                    i += 1
+                elif char == quote:
+                    quote = None
+            elif char in ('"', "'"):
+                quote = char
+            elif char == '{':
+                depth += 1
+            elif char == '}':
+                depth -= 1
+                if depth == 0:
+                    return i
+            i += 1
+        # no brace matches (an apostrophe in the field, an unbalanced expression): the field ends at the next brace
+        return template.index('}', start)
 
     @staticmethod
     def __render_plain(template: str, extractor) -> str:
@@ -136,7 +183,7 @@ class LogActionContext(ActionContext):
                 out.append(char)
                 i += 2
             elif char == '{' and '}' in template[i:]:
-                end = template.index('}', i)
+                end = LogActionContext.__field_end(template, i)
                 out.append(extractor.get_field(template[i + 1:end], (), {})[0])
                 i = end + 1
             else:
